@@ -84,7 +84,7 @@ func (w *World) timedServe(op *Op) {
 	op.StartSeq = w.opSeq
 	w.mu.Unlock()
 	op.StartT = w.s.Now()
-	rep := w.reps[op.Replica]
+	rep := w.repFor(op)
 	if op.Legacy && w.legacy != nil {
 		rep = w.legacy
 	}
